@@ -309,6 +309,11 @@ func (w *treeWorld) exec(r *Run, line string) {
 		leaf := common.BytesToHash(unhx(ws[4]))
 		err := w.ao.AddLeaf(w.tx, bn, bp, treetypes.Leaf{Index: uint32(idx), Hash: leaf})
 		r.Emit(line, errKind(err))
+		if err != nil && idx == w.ref.count && !w.refBroken && leaf != (common.Hash{}) { // an all-zero leaf leaves the root unchanged (PK on root.hash); real leaves are Keccak outputs
+			// monitor C01: the next consecutive deposit of a well-formed sequence must be accepted (no fault is
+			// injected by a plain `add`); a node that refuses it never reports the root for this deposit count
+			r.Fail(fmt.Sprintf("[C01] the next consecutive deposit (count %d) was refused with `%v`: the node reports no exit root for it", idx, err), cp())
+		}
 		if err == nil {
 			w.ref.add(leaf)
 			w.refPending = append(w.refPending, leaf)
